@@ -735,7 +735,7 @@ def network(profile="exact", max_ops=6, dtypes=("int8", "int8", "int8", "uint8",
             if not ends:
                 ends.append(nb.unary(x, "RELU", same_q=True))
             return dict(tensors=nb.tensors, ops=nb.ops, inputs=nb.inputs, outputs=ends)
-        if profile == "lutmix":
+        if profile in ("lutmix", "lutmix8"):  # (lutmix8: the large table is always the 8-bit SOFTMAX's, which the value oracle of C01 can execute)
             # tables of different sizes sharing the SHRAM table area inside one NPU subgraph: a run of 8-bit table activations (256-byte tables; TANH and LOGISTIC have fixed output
             # quantisations, so alternating them repeats tables), then one operator with a large table (int8 SOFTMAX: 1 KB; int16 EXP/LOG/SQRT/GELU between two QUANTIZE
             # operators: 2 KB), then 8-bit activations again that re-use tables loaded before the large one
@@ -753,8 +753,16 @@ def network(profile="exact", max_ops=6, dtypes=("int8", "int8", "int8", "uint8",
             dt8 = nb.info(cur)["dtype"]
             first = draw(st.integers(0, 1))
             cur = run8(cur, draw(st.integers(2, 4)), first)
+            if draw(st.integers(0, 2)) != 0:
+                # fill the remaining table slots with distinct tables (LEAKY_RELU that keeps its input's quantisation, one alpha each), so that a large table has to
+                # be placed over tables that are still resident
+                Xc = nb.info(cur)
+                for alpha in draw(st.permutations([0.1, 0.01, 0.2, 0.5, 0.3, 0.05, 0.7]))[:draw(st.integers(4, 6))]:
+                    o = nb.out("lrelu_fill", Xc["shape"], Xc["dtype"], (Xc["scale"], Xc["zp"]))
+                    nb.op("LEAKY_RELU", [cur], [o], "LeakyReluOptions", dict(Alpha=alpha), version=2)
+                    cur = o
             for rep in range(draw(st.integers(1, 2))):
-                bigk = draw(st.sampled_from(["softmax", "lut16", "lut16"])) if dt8 == "int8" else "softmax"
+                bigk = draw(st.sampled_from(["softmax", "lut16", "lut16"])) if dt8 == "int8" and profile == "lutmix" else "softmax"
                 if bigk == "softmax":
                     cur = nb.softmax(cur)
                 else:
